@@ -42,7 +42,7 @@ Proof. exact c11_request_inert. Qed.
 Print Assumptions C11_request_inert.
 
 (* the premise of abstracting from time in this property's model: the code it models waits, polls and gives up
-   exactly where the model says (primitive codes in Proofs/W_*.v); re-extracted from the source on every run *)
+   with exactly the kinds of primitives the model accounts for (codes in Proofs/W_*.v); re-extracted from the source on every run *)
 Require Import GV.Gen.Consts GV.Proofs.W_authority GV.Proofs.W_can GV.Proofs.W_net.
 Theorem C11_time_abstraction : waits_authority = (@nil Z) /\ waits_can = (@nil Z) /\ waits_net = (@nil Z).
 Proof. exact (conj w_authority (conj w_can w_net)). Qed.
